@@ -13,7 +13,12 @@
 (* (sign, wrap, vb, build, enc, dec, unwrap: [ok, err]), m / fig (message after wrapping),    *)
 (* a (the transaction obtained after the round trip), m2 / fig2 / env (decoded message and    *)
 (* envelope), geth (go-ethereum's own figures), and the side paths pb (protobuf Any),         *)
-(* rlp (UnmarshalBinary) and json (TxJSONEncoder / TxJSONDecoder).                            *)
+(* rlp (UnmarshalBinary) and json (TxJSONEncoder / TxJSONDecoder); and h, the HAND-BUILT       *)
+(* envelope of the case (cfg.cls.rec / from: the spelling of the recorded hash and the From   *)
+(* field a sender wrote next to the same signed transaction; h.run = FALSE at the API point): *)
+(* what was sent (sent, sentFrom, denotes = the 32 bytes a lenient parser reads from sent),   *)
+(* and what the receiving side sees after TxEncoder / TxDecoder / GetMsgs (rec, from, vb,     *)
+(* txHash, sender, getSender).                                                                *)
 EXTENDS Envelope
 
 VARIABLES l, viol, div, bad, cnt
@@ -33,6 +38,7 @@ ClsOf(c, ks) == "type=" \o c.type \o
 
 HashCls(c)   == ClsOf(c, <<"access">>)
 SenderCls(c) == ClsOf(c, <<"sig", "chain">>)
+EnvCls(c)    == ClsOf(c, <<"rec", "from">>)
 FigCls(k, c) == CASE k = "fee"  -> ClsOf(c, <<"gas", "price">>)
                   [] k = "cost" -> ClsOf(c, <<"amount", "price">>)
                   [] OTHER      -> ClsOf(c, <<"rel", "base">>)
@@ -60,7 +66,7 @@ NotInClass(e) ==
     LET c == e.cfg.cls  o == e.o
         ch == IF Rand(c.chain) THEN o.chainId ELSE ChainVal(c.chain)
         cap == IF IsDyn(c.type) THEN o.feeCap ELSE o.gasPrice IN
-    {f \in {"type", "nonce", "gas", "amount", "price", "rel", "data", "access", "to", "sig", "base", "space"} :
+    {f \in {"type", "nonce", "gas", "amount", "price", "rel", "data", "access", "to", "sig", "base", "space", "rec", "from"} :
        ~ CASE f = "type"   -> o.type = c.type
            [] f = "nonce"  -> Rand(c.nonce) \/ o.nonce = NonceVal(c.nonce)
            [] f = "gas"    -> Rand(c.gas) \/ o.gas = GasVal(c.gas)
@@ -79,7 +85,26 @@ NotInClass(e) ==
                               /\ o.protected = (c.sig # "unprotected")
                               /\ (c.sig = "typed") = (c.type # "legacy")
            [] f = "base"   -> BaseIn(c.base, e.base, o.tipCap, o.feeCap)
-           [] f = "space"  -> e.src = "random" \/ InSpace(c, FullSpace) \/ c \in ExtraCases }
+           [] f = "space"  -> e.src = "random" \/ InSpace(c, FullSpace) \/ c \in ExtraCases
+           \* the spelling the sender recorded (judged where the hand-built envelope exists: the code wrapped the
+           \* transaction): the class, the string and the bytes it denotes to a lenient parser agree
+           [] f = "rec"    -> ~e.wrap.ok \/
+                              IF ~e.h.run THEN c.rec = ApiRec /\ c.from = ApiFrom
+                              ELSE LET snt == e.h.sent  n == Len(e.h.sent)  same == (e.h.denotes = o.hash) IN
+                                   CASE c.rec = "canon"      -> snt = o.hash
+                                     [] c.rec = "empty"      -> snt = ""
+                                     [] c.rec = "wrong"      -> snt # o.hash /\ n = 66 /\ ~same
+                                     [] c.rec \in {"upper", "mixed", "capsprefix"} -> snt # o.hash /\ n = 66 /\ same
+                                     [] c.rec = "noprefix"   -> n = 64 /\ same
+                                     [] c.rec = "odd"        -> n = 67 /\ same
+                                     [] c.rec \in {"zeropad", "longer"} -> n > 67 /\ same
+                                     [] OTHER -> FALSE
+           [] f = "from"   -> ~e.wrap.ok \/ ~e.h.run \/
+                              CASE c.from = "empty"   -> e.h.sentFrom = ""
+                                [] c.from = "signer"  -> e.h.sentFrom = e.exp
+                                [] c.from = "foreign" -> Len(e.h.sentFrom) = 42 /\ e.h.sentFrom # e.exp
+                                [] c.from = "garbage" -> Len(e.h.sentFrom) \notin {0, 42}
+                                [] OTHER -> FALSE }
 
 ---------------------------------------------------------------------------
 (* P on one recorded case *)
@@ -123,6 +148,21 @@ Violations(e) ==
                          (CASE ~e.build.ok -> "build" [] ~e.enc.ok -> "encode" [] ~e.dec.ok -> "decode" [] OTHER -> "unwrap"), e)}
             ELSE {})
 
+\* P on the HAND-BUILT envelope of the case: the same signed transaction, the fields outside the signature as the
+\* sender chose them, through TxEncoder / TxDecoder / GetMsgs.
+\*  - "the hash recorded in the message ALWAYS equals the Ethereum hash": a message the receiving side accepts
+\*    (ValidateBasic, the only guard between the TxDecoder and the state machine) records exactly the Ethereum
+\*    hash - the string Hash().Hex() that every wrapping function writes and that the event, RPC and indexer code
+\*    downstream uses verbatim.  Which envelopes are refused is not judged.
+\*  - the transaction it carries is the signed original (hash, recoverable sender), whatever the envelope says;
+\*    the message's own GetSender answers the key holder, not the From field.
+HandViolations(e) ==
+    LET c == e.cfg.cls  o == e.o  h == e.h IN
+    IF ~e.wrap.ok \/ ~h.run \/ ~h.stage.ok THEN {}
+    ELSE (IF h.vb.ok => h.rec = o.hash THEN {} ELSE {Sig("recorded-hash-of-accepted", EnvCls(c), e)})
+         \cup (IF h.txHash = o.hash /\ h.sender = e.exp THEN {} ELSE {Sig("hand-built-carries-other-tx", EnvCls(c), e)})
+         \cup (IF h.getSender \in {e.exp, "skip"} THEN {} ELSE {Sig("sender-echoes-From-field", SenderCls(c), e)})
+
 \* problems of the harness or of this specification, never verdicts (the run is stopped as INFRA)
 Problems(e) ==
     LET o == e.o  F == Figures(o, e.base) IN
@@ -148,6 +188,11 @@ Divergences(e) ==
                     \cup (IF e.unwrap.ok /\ (e.m2.from # "" \/ e.m.from # "") THEN {D("from-not-empty", "", e.m2.from)} ELSE {})
                     \cup (IF e.unwrap.ok /\ ~e.json.ok THEN {D("json-path", "ok", e.json.err)} ELSE {})
                     \cup (IF e.unwrap.ok /\ e.env.ext # 1 THEN {D("extension-options", "1", "other")} ELSE {})
+                    \cup (IF e.h.run /\ e.h.stage.ok /\ MValidateEnvelope(o, e.cfg.cls) # e.h.vbCls
+                          THEN {D("validate-hand-built:" \o e.cfg.cls.rec \o ":" \o e.cfg.cls.from, MValidateEnvelope(o, e.cfg.cls), e.h.vbCls)}
+                          ELSE {})
+                    \cup (IF e.h.run /\ e.h.stage.ok /\ (e.h.rec # e.h.sent \/ e.h.from # e.h.sentFrom)
+                          THEN {D("hand-built-fields-changed-on-the-wire", e.h.sent, e.h.rec)} ELSE {})
                     \cup (IF o.type = "legacy" /\ MDeriveChainID(o.v) # e.m.chainId
                           THEN {D("derive-chain-id", MDeriveChainID(o.v), e.m.chainId)} ELSE {}))
 
@@ -155,7 +200,8 @@ Divergences(e) ==
 
 TraceInit ==
     /\ l = 1 /\ viol = {} /\ div = {} /\ bad = {}
-    /\ cnt = [wrapped |-> 0, roundtrips |-> 0, refused |-> 0, incomplete |-> 0]
+    /\ cnt = [wrapped |-> 0, roundtrips |-> 0, refused |-> 0, incomplete |-> 0,
+              handBuilt |-> 0, handAccepted |-> 0, handRefusedForHash |-> 0, handRefusedDenotingSame |-> 0]
     /\ cs = NoCase /\ x = NoCase
 
 TraceNext ==
@@ -163,13 +209,23 @@ TraceNext ==
     /\ LET e == Trace[l] IN
        /\ l' = l + 1
        /\ UNCHANGED <<cs, x>>
-       /\ viol' = viol \cup Violations(e)
+       /\ viol' = viol \cup Violations(e) \cup HandViolations(e)
        /\ bad'  = bad \cup Problems(e)
        /\ div'  = div \cup Divergences(e)
        /\ cnt'  = [wrapped    |-> cnt.wrapped + (IF e.wrap.ok THEN 1 ELSE 0),
                    roundtrips |-> cnt.roundtrips + (IF e.wrap.ok /\ e.unwrap.ok THEN 1 ELSE 0),
                    refused    |-> cnt.refused + (IF e.wrap.ok THEN 0 ELSE 1),
-                   incomplete |-> cnt.incomplete + (IF e.wrap.ok /\ ~e.unwrap.ok THEN 1 ELSE 0)]
+                   incomplete |-> cnt.incomplete + (IF e.wrap.ok /\ ~e.unwrap.ok THEN 1 ELSE 0),
+                   \* non-vacuity of the envelope dimension: hand-built envelopes that reached the receiving side,
+                   \* accepted ones (P's premise), ones refused for the recorded hash, and among those the ones a
+                   \* lenient parser would have read as the right bytes
+                   handBuilt |-> cnt.handBuilt + (IF e.wrap.ok /\ e.h.run /\ e.h.stage.ok THEN 1 ELSE 0),
+                   handAccepted |-> cnt.handAccepted + (IF e.wrap.ok /\ e.h.run /\ e.h.stage.ok /\ e.h.vb.ok THEN 1 ELSE 0),
+                   handRefusedForHash |-> cnt.handRefusedForHash +
+                       (IF e.wrap.ok /\ e.h.run /\ e.h.stage.ok /\ e.h.vbCls = "hash-mismatch" THEN 1 ELSE 0),
+                   handRefusedDenotingSame |-> cnt.handRefusedDenotingSame +
+                       (IF e.wrap.ok /\ e.h.run /\ e.h.stage.ok /\ e.h.vbCls = "hash-mismatch" /\ e.h.denotes = e.o.hash
+                        THEN 1 ELSE 0)]
 
 TraceSpec == TraceInit /\ [][TraceNext]_tvars
 
